@@ -33,6 +33,8 @@ def label_of(e):
     e = sp.sympify(e)
     if isinstance(e, sp.Symbol):
         return e.name
+    if isinstance(e, sp.Integer):
+        return 'c%d' % int(e)
     return str(e)
 
 
@@ -103,6 +105,8 @@ class ShapeLifter(Lifter):
         super().__init__(repo, cls, flags, rel)
         self.events = []
         self.defined = {}       # opaque label -> nest that a reshape defined
+        self.terminals = []     # (call node, [arg values]) of terminal calls
+        self.explore_guards = False
 
     # -- helpers ---------------------------------------------------------------
     def note(self, kind, node, msg, **kw):
@@ -206,6 +210,13 @@ class ShapeLifter(Lifter):
             return Opaque('bool')
         if isinstance(n, ast.BoolOp):
             return Opaque('bool')
+        if isinstance(n, ast.UnaryOp):
+            v = self.ev(n.operand, env, fn, depth, owner)
+            if isinstance(v, Arr):
+                return v
+            if isinstance(v, sp.Expr) and isinstance(n.op, ast.USub):
+                return -v
+            return v if isinstance(n.op, ast.UAdd) else TOP
         try:
             return super().ev(n, env, fn, depth, owner)
         except Unsupported:
@@ -430,6 +441,12 @@ class ShapeLifter(Lifter):
 
     def _stmt(self, s, env, fn, depth, owner):
         self._cur = s
+        if self.explore_guards and isinstance(s, ast.If) \
+                and self._is_guard(s):
+            try:
+                self._block(s.body, dict(env), fn, depth, owner)
+            except Unsupported:
+                pass
         if isinstance(s, ast.For):
             return self.for_loop(s, env, fn, depth, owner)
         if isinstance(s, ast.AugAssign):
@@ -507,13 +524,14 @@ class ShapeLifter(Lifter):
         accs = {}
         for st in s.body:
             if isinstance(st, ast.AugAssign) and isinstance(
-                    st.op, ast.Add) and isinstance(st.target, ast.Name):
-                cur = env.get(st.target.id)
+                    st.op, ast.Add) and isinstance(
+                    st.target, (ast.Name, ast.Attribute)):
+                cur = env.get(U(st.target))
                 val = self.ev(st.value, env, fn, depth, owner)
                 if isinstance(cur, Arr) and cur.is_list and eq(
                         cur.total(), 0) and isinstance(val, Arr) \
                         and val.is_list and ax is not None:
-                    accs[st.target.id] = Arr(
+                    accs[U(st.target)] = Arr(
                         (Ax(ax.size * val.axes[0].size,
                             ax.nest + val.axes[0].nest),), is_list=True)
                     continue
@@ -660,7 +678,9 @@ class ShapeLifter(Lifter):
                 return sp.Symbol('_scalar') if isinstance(v, Arr) else TOP
             if isinstance(recv, ast.Name) and recv.id == 'self' and owner:
                 if self.terminal and attr == self.terminal:
-                    return Tup([Opaque('terminal')] + [ev(a) for a in n.args])
+                    vals = [ev(a) for a in n.args]
+                    self.terminals.append((n, vals))
+                    return Tup([Opaque('terminal')] + vals)
                 k, d = self.repo.resolve(self.cls or owner, attr)
                 if d is not None and depth < 3:
                     try:
